@@ -278,6 +278,7 @@ def derivative_search(ctx, budget, honesty):
         nan_tail_family(ctx, max(120, budget // 3))
         random_ratio_family(ctx, max(100, budget // 4))
         under_resolved_probe(ctx)
+        slow_drift_family(ctx)
         stationary_single_estimate(ctx, max(20, budget // 8))
     else:
         shared_generator_probe(ctx, max(6, budget // 60))
@@ -285,6 +286,7 @@ def derivative_search(ctx, budget, honesty):
         elementary_table_family(ctx, None if ctx.thorough else 2)
         scale_invariance_family(ctx, 400 if ctx.thorough else 60)
         singular_step_family(ctx)
+        polynomial_ratio_family(ctx, 1500 if ctx.thorough else 150)
     ctx.notes.append('%d programs skipped: not finite at the complex points of the stencil' % skipped_nonfinite[0])
     ctx.notes.append('worst ratio / envelope per (method, n) on this run: %s'
                      % {('%s,%d' % k): float('%.2g' % v) for k, v in sorted(worst.items())})
@@ -473,6 +475,88 @@ def multistep_complex_family(ctx, budget):
             ctx.violation('Derivative (complex-step method, user generator with several moderate steps) is outside the accuracy envelope of '
                           '(%s, n=%d, order=%d)' % (m, n, order), got=v, error=abs(v - d[n]), local_scale=S, ratio=ratio, envelope=env, **rep)
     ctx.notes.append('multi-step complex family: %d cases, worst ratio / envelope = %.3g' % (done, worst))
+
+
+def polynomial_ratio_family(ctx, budget):
+    """Exactness on polynomials with step ratios that are not round numbers (sqrt 2, e / 2, the golden ratio, 4.8 / 3, random): for a
+    polynomial of degree <= n + 1 every rule of order >= 2 is exact at *any* step size (theorem `derivative_exact_on_polynomials`), so
+    with large steps (MaxStepGenerator(base_step=1), 6 steps, ratio <= 2.5, n <= 2 one-sided / <= 3 central and complex) nothing but rounding
+    (eps / h^n at the smallest step) is left: the unchanged tree is within 1.7e-12 of the exact value relative to the size of the
+    coefficients (4000 cases); asserted at 5e-11."""
+    import numdifftools as nd
+    from numdifftools.step_generators import MaxStepGenerator
+    rng = ctx.rng
+    worst = 0.0
+    for _ in range(budget):
+        m = rng.choice(['central', 'forward', 'backward', 'complex'])
+        n = rng.randint(1, 3 if m in ('central', 'complex') else 2)
+        order = rng.choice([2, 3, 4, 6])
+        ratio = rng.choice([rng.uniform(1.25, 2.5), 2.0 ** 0.5, (1 + 5 ** 0.5) / 2, math.e / 2, 4.8 / 3, 2.0 ** (1.0 / 3), 5.0 / 3.0])
+        x = rng.choice([0.0, 0.5, -1.25, rng.uniform(-2, 2)])
+        coef = [rng.randint(-8, 8) / 4 for _ in range(n + 2)]
+        if coef[n] == 0:
+            coef[n] = 1.0
+        f = lambda t, coef=coef, x=x: sum(c * (t - x) ** k for k, c in enumerate(coef))
+        exact = coef[n] * math.factorial(n)
+        rep = dict(polynomial_coefficients_about_x=coef, x=x, method=m, n=n, order=order, step_ratio=ratio)
+        ctx.tried(('polynomial-ratio', m, n, order, ratio, x))
+        try:
+            with warnings.catch_warnings():
+                warnings.simplefilter('ignore')
+                val = nd.Derivative(f, n=n, method=m, order=order, step=MaxStepGenerator(base_step=1.0, step_ratio=ratio, num_steps=6))(x)
+        except Exception as ex:
+            ctx.violation('Derivative raised %r' % ex, **rep)
+            continue
+        scale = math.factorial(n) * max(abs(c) for c in coef) * 2.0
+        e = abs(float(val) - exact) / scale
+        worst = max(worst, e)
+        if not e <= 5e-11:
+            ctx.violation('Derivative is not exact (to rounding) on a polynomial of degree n + 1 when the step ratio is not a round number',
+                          got=float(val), exact=exact, relative_error=e, **rep)
+    ctx.notes.append('polynomials with non-round step ratios: worst relative error %.3g (asserted 5e-11)' % worst)
+
+
+def slow_drift_family(ctx):
+    """Honesty on sequences that drift slowly (like log h) instead of converging geometrically: f(x) = x log(x^2 + a) / 2 at 0, whose
+    difference quotients are log(h^2 + a) / 2 and settle only once h^2 << a; and polynomials of degree 9 sampled with few large steps.
+    The extrapolation stage must then report the differences it observed, not its rounding floor.  Asserted: the honesty bound."""
+    import numdifftools as nd
+    from numdifftools.step_generators import MaxStepGenerator
+    rng = ctx.rng
+    for a in (1e-6, 1e-8, 1e-4, 10.0 ** rng.uniform(-9, -3)):
+        for m in ('central', 'forward', 'backward'):
+            f = lambda t, a=a: 0.5 * t * np.log(t * t + a)
+            exact = 0.5 * math.log(a)
+            ctx.tried(('slow-drift', a, m))
+            try:
+                with warnings.catch_warnings():
+                    warnings.simplefilter('ignore')
+                    val, info = nd.Derivative(f, method=m, full_output=True)(0.0)
+            except Exception as ex:
+                ctx.violation('Derivative raised %r' % ex, program='x log(x^2 + a) / 2', a=a, method=m)
+                continue
+            err, est = abs(float(val) - exact), float(info.error_estimate)
+            if not err <= K_EST * est + 1e-9 * abs(exact):
+                ctx.violation('true error exceeds %g x error_estimate + rounding floor (slowly drifting difference quotients)' % K_EST,
+                              program='x log(x^2 + a) / 2 at 0', a=a, method=m, got=float(val), exact=exact, error=err, error_estimate=est)
+    for _ in range(40 if not ctx.thorough else 400):
+        # p(t) = c1 t + c9 t^9: the quotient p(h) / h = c1 + c9 h^8 is far from c1 at h = 2, 1 and stalls (to rounding) below h ~ 0.01
+        c1, c9 = rng.choice([1.5, -2.0, 0.75]), rng.choice([1.0, -0.5, 3.0])
+        ns = rng.randint(5, 7)
+        m = rng.choice(['central', 'forward'])
+        f = lambda t, c1=c1, c9=c9: c1 * t + c9 * t ** 9
+        ctx.tried(('few-large-steps', c1, c9, ns, m))
+        try:
+            with warnings.catch_warnings():
+                warnings.simplefilter('ignore')
+                val, info = nd.Derivative(f, method=m, full_output=True, step=MaxStepGenerator(base_step=2.0, step_ratio=2.0, num_steps=ns))(0.0)
+        except Exception as ex:
+            ctx.violation('Derivative raised %r' % ex, program='c1 t + c9 t^9', c1=c1, c9=c9, num_steps=ns, method=m)
+            continue
+        err, est = abs(float(val) - c1), float(info.error_estimate)
+        if not err <= K_EST * est + 1e-9 * abs(c1):
+            ctx.violation('true error exceeds %g x error_estimate + rounding floor (few large steps, high-degree polynomial)' % K_EST,
+                          program='c1 t + c9 t^9 at 0', c1=c1, c9=c9, num_steps=ns, method=m, got=float(val), exact=c1, error=err, error_estimate=est)
 
 
 def random_ratio_family(ctx, budget):
